@@ -4,8 +4,9 @@ import json,sys,os
 a=sys.argv[1:]
 pid,caught,checks=a[0],a[1],a[2]
 rest=(' '+' '.join(a[3:])).split(' -- ')
-d='/verif/seeded/%s'%pid
-meta={'property':pid,'breaks':open(d+'/agent_meta.txt').read()[:1500] if os.path.exists(d+'/agent_meta.txt') else '',
+rnd=os.environ.get('SEED_ROUND','')
+d='/verif/seeded/%s%s'%(pid,'-'+rnd if rnd else '')
+meta={'property':pid+(' ('+rnd+')' if rnd else ''),'breaks':open(d+'/agent_meta.txt').read()[:1500] if os.path.exists(d+'/agent_meta.txt') else '',
  'needs_to_manifest':rest[1] if len(rest)>1 else '', 'verified_by_orchestrator':'tools/seedtest.sh %s: demo fails with the change, passes without; suite of the touched packages passes with the change; patch applied to /repo, ./check run, /repo reverted'%pid,
  'caught_by_quick':caught,'checks_run':checks.split(','),'notes':rest[2] if len(rest)>2 else ''}
 json.dump(meta,open(d+'/meta.json','w'),indent=1)
